@@ -28,7 +28,7 @@
 //
 // The Lean side replays the events on the model as a monitor (ACCEPT/REJECT)
 // and evaluates Spec.C12 on them. Wall-clock never decides anything: every wait
-// is on an observable condition with a 20 s ceiling that yields `inconclusive`.
+// is on an observable condition with a ceiling (20 s) that yields `inconclusive`.
 package c12
 
 import (
@@ -52,11 +52,44 @@ import (
 	"verifharness/sx"
 )
 
-const (
-	ceiling     = 20 * time.Second
-	longTimeout = 30 * time.Second
-	sendErrText = "c12 injected send failure"
+const sendErrText = "c12 injected send failure"
+
+// Waiting budget. On the unchanged tree no "long" ResponseTimeout ever fires and
+// no ceiling is ever hit. When that happens repeatedly (a mutated tree that
+// loses replies, or a hopelessly overloaded machine) more patience only burns
+// hours: after a few occurrences the process switches to short values. Neither
+// value is ever a verdict: a ceiling yields `inconclusive`, and the length of a
+// ResponseTimeout is a parameter the property is quantified over.
+var (
+	tripMu sync.Mutex
+	trips  int
 )
+
+func trip() {
+	tripMu.Lock()
+	trips++
+	tripMu.Unlock()
+}
+
+func tripped() bool {
+	tripMu.Lock()
+	defer tripMu.Unlock()
+	return trips >= 4
+}
+
+func ceiling() time.Duration {
+	if tripped() {
+		return 3 * time.Second
+	}
+	return 20 * time.Second
+}
+
+func longTimeout() time.Duration {
+	if tripped() {
+		return 2 * time.Second
+	}
+	return 30 * time.Second
+}
 
 func target(n int) controlcommands.MesosCommandTarget {
 	return controlcommands.MesosCommandTarget{
@@ -88,6 +121,7 @@ type tspec struct {
 type cspec struct {
 	q       int
 	tmo     time.Duration
+	long    bool // tmo is the "never expected to fire" value
 	targets []tspec
 }
 
@@ -177,8 +211,9 @@ func (r *run) settle(returned chan struct{}, c int) error {
 	select {
 	case <-returned:
 	case <-done:
-	case <-time.After(ceiling):
-		return fmt.Errorf("inconclusive: ProcessResponse neither returned nor did its command complete within %s", ceiling)
+	case <-time.After(ceiling()):
+		trip()
+		return fmt.Errorf("inconclusive: ProcessResponse neither returned nor did its command complete within its ceiling")
 	}
 	return nil
 }
@@ -325,7 +360,7 @@ func parseInput(in *sx.Node) ([]cspec, []*sx.Node, error) {
 		}
 		cs := cspec{q: cn.At(0).Int(), tmo: time.Duration(cn.At(1).Int()) * time.Millisecond}
 		if cs.tmo == 0 {
-			cs.tmo = longTimeout
+			cs.tmo, cs.long = longTimeout(), true
 		}
 		for _, tn := range cn.List[2:] {
 			ts := tspec{t: tn.At(0).Int()}
@@ -406,13 +441,17 @@ func runImpl(input string) (string, error) {
 					now := time.Now()
 					r.mu.Lock()
 					r.results[c] = append(r.results[c], v)
-					r.record(sx.L(sx.A("D"), sx.I(c), r.result(v)))
+					rn := r.result(v)
+					r.record(sx.L(sx.A("D"), sx.I(c), rn))
 					st := r.firstS[c]
 					r.mu.Unlock()
 					if first {
 						first = false
-						if !st.IsZero() && cmds[c].tmo < longTimeout {
+						if !st.IsZero() && !cmds[c].long {
 							noteRatio(float64(now.Sub(st)) / float64(cmds[c].tmo))
+						}
+						if cmds[c].long && strings.Contains(rn.String(), "timeout") {
+							trip() // a "never fires" timeout fired
 						}
 						close(r.doneCh[c])
 					}
@@ -464,8 +503,9 @@ func runImpl(input string) (string, error) {
 			}
 			select {
 			case <-ch:
-			case <-time.After(ceiling):
-				return "", fmt.Errorf("inconclusive: send (%d,%d) not observed within %s", a.At(1).Int(), a.At(2).Int(), ceiling)
+			case <-time.After(ceiling()):
+				trip()
+				return "", fmt.Errorf("inconclusive: send (%d,%d) not observed within its ceiling", a.At(1).Int(), a.At(2).Int())
 			}
 		case "R":
 			c := a.At(1).Int()
@@ -498,8 +538,9 @@ func runImpl(input string) (string, error) {
 			}
 			select {
 			case <-r.doneCh[c]:
-			case <-time.After(ceiling + cmds[c].tmo):
-				return "", fmt.Errorf("inconclusive: command %d not completed within %s", c, ceiling+cmds[c].tmo)
+			case <-time.After(ceiling() + cmds[c].tmo):
+				trip()
+				return "", fmt.Errorf("inconclusive: command %d not completed within ceiling + its ResponseTimeout", c)
 			}
 		default:
 			return "", fmt.Errorf("bad action %q", a.At(0).Str())
@@ -512,8 +553,9 @@ func runImpl(input string) (string, error) {
 		}
 		select {
 		case <-r.doneCh[c]:
-		case <-time.After(ceiling + cmds[c].tmo):
-			return "", fmt.Errorf("inconclusive: command %d not completed within %s", c, ceiling+cmds[c].tmo)
+		case <-time.After(ceiling() + cmds[c].tmo):
+			trip()
+			return "", fmt.Errorf("inconclusive: command %d not completed within ceiling + its ResponseTimeout", c)
 		}
 	}
 	r.mu.Lock()
@@ -583,6 +625,7 @@ func init() {
 			"model as a monitor and Spec.C12 is evaluated on it; non-trivial = >=2 commands or >=2 targets, and >=1 reply that is not the " +
 			"first own reply of a pending call (dup/late/early/foreign/wrong) or >=1 timeout/send failure; distinct by input text",
 		Shrink:   shrinkCands,
+		Search:   search,
 		Workers:  8,
 		Setup:    setup,
 		Teardown: teardown,
